@@ -77,7 +77,7 @@ def written_exact(S, base, n, t):
 
 # ---------------------------------------------------------------- joint results / twins
 
-def joint(S, outs, with_ret=None):
+def joint(S, outs, with_ret=None, hoisted=True):
     """one decision DAG over all exits whose leaves are tuples of the listed outputs
     outs: list of (base, off, size, llvm type); with_ret: llvm type of the return value or None"""
     items = []
@@ -95,7 +95,8 @@ def joint(S, outs, with_ret=None):
             v = T.mk('abort', e.kind, (), None)
         for p in e.paths:
             items.append((p, v))
-    return hoist(vg.build_tree(items))
+    r = vg.build_tree(items)
+    return hoist(r) if hoisted else r
 
 _hoist_memo = {}
 def hoist(n):
@@ -163,3 +164,26 @@ def region(J, pred):
             memo[x.id] = r
         return r
     return rec(J)
+
+
+def explain_diff(x, y, budget=20000):
+    """walk down to the first pair of sub-terms that are not equivalent"""
+    path = []
+    a, b = x, y
+    for _ in range(60):
+        if a.op == b.op and len(a.args) == len(b.args) and a.args and a.attr == b.attr:
+            nxt = None
+            for i, (p, q) in enumerate(zip(a.args, b.args)):
+                if p is q: continue
+                try:
+                    e = T.equiv(p, q, budget)
+                except OverflowError:
+                    e = False
+                if not e:
+                    nxt = (p, q, i); break
+            if nxt is None: break
+            path.append('%s#%d' % (a.op, nxt[2]))
+            a, b = nxt[0], nxt[1]
+        else:
+            break
+    return 'first form has %s where second has %s (at %s)' % (T.show(a, 4)[:300], T.show(b, 4)[:300], '/'.join(path[-8:]))
